@@ -19,6 +19,7 @@ import (
 	"errors"
 	"net"
 	"sync"
+	"sync/atomic"
 	"time"
 
 	"github.com/caddyserver/caddy/v2"
@@ -72,7 +73,10 @@ type Connection struct {
 	frozenOffset int
 	matching     bool
 
-	bytesRead, bytesWritten uint64
+	// updated from several goroutines (the proxy relays each upstream in its own
+	// goroutine; a hijacked connection is read by the wrapped listener's consumer
+	// while the handler logs its statistics)
+	bytesRead, bytesWritten atomic.Uint64
 }
 
 var ErrConsumedAllPrefetchedBytes = errors.New("consumed all prefetched bytes")
@@ -111,14 +115,14 @@ func (cx *Connection) Read(p []byte) (n int, err error) {
 	// buffer has been "depleted" so read from
 	// underlying connection
 	n, err = cx.Conn.Read(p)
-	cx.bytesRead += uint64(n)
+	cx.bytesRead.Add(uint64(n))
 
 	return
 }
 
 func (cx *Connection) Write(p []byte) (n int, err error) {
 	n, err = cx.Conn.Write(p)
-	cx.bytesWritten += uint64(n)
+	cx.bytesWritten.Add(uint64(n))
 	return
 }
 
@@ -138,13 +142,13 @@ func (cx *Connection) CloseWrite() error {
 // our Connection type (for example, `tls.Server()`).
 func (cx *Connection) Wrap(conn net.Conn) *Connection {
 	wrapped := &Connection{
-		Conn:         conn,
-		Context:      cx.Context,
-		Logger:       cx.Logger,
-		matching:     cx.matching,
-		bytesRead:    cx.bytesRead,
-		bytesWritten: cx.bytesWritten,
+		Conn:     conn,
+		Context:  cx.Context,
+		Logger:   cx.Logger,
+		matching: cx.matching,
 	}
+	wrapped.bytesRead.Store(cx.bytesRead.Load())
+	wrapped.bytesWritten.Store(cx.bytesWritten.Load())
 	// conn reads through cx, so any prefetched bytes cx has not handed out
 	// yet will arrive via conn; copying them into the new Connection as well
 	// would deliver them twice and out of order. Only a drained buffer can
@@ -175,7 +179,7 @@ func (cx *Connection) prefetch() (err error) {
 			cx.buf = append(cx.buf, tmp[:n]...)
 		}
 
-		cx.bytesRead += uint64(n)
+		cx.bytesRead.Add(uint64(n))
 
 		if err != nil {
 			return err
